@@ -75,7 +75,7 @@ def register_unit_format(name: str):
                     if isinstance(magnitude, ndarray) and magnitude.ndim > 0:
                         # Use custom ndarray text formatting--need to handle scalars differently
                         # since they don't respond to printoptions
-                        with np.printoptions(formatter={"float_kind": format_number}):
+                        with np.printoptions(formatter={"float_kind": format_number, "int_kind": format_number}):
                             mstr = format(magnitude).replace("\n", "")
                     else:
                         mstr = format_number(magnitude)
